@@ -175,7 +175,7 @@ Ltac js_cases H :=
          end.
 
 Lemma jreach_in_trace : forall combined mode order j,
-  jreach combined mode order j -> In j (trace_states combined mode order).
+  jreach combined false mode order j -> In j (trace_states combined mode order).
 Proof.
   intros combined mode order j H. induction H.
   - unfold trace_states, js_init, first_stage.
@@ -209,7 +209,7 @@ Fixpoint is_prefix (a b : list stage) : bool :=
    made exactly the demanded sequence: each stage once, in chain order (one combined stage for the AEAD
    kernels in cipher-first order) *)
 Theorem stages_once_in_order_all : forall combined mode order j,
-  jreach combined mode order j ->
+  jreach combined false mode order j ->
   is_prefix (js_log j) (expected_stages combined mode order) = true /\
   NoDup (js_log j) /\
   (js_done j -> js_log j = expected_stages combined mode order /\ js_status j = IMB_STATUS_COMPLETED).
@@ -225,7 +225,7 @@ Qed.
 
 (* an unfinished job always has its next event: nobody can get stuck between the stages *)
 Theorem stages_progress : forall combined mode order j,
-  jreach combined mode order j -> js_status j < IMB_STATUS_COMPLETED -> exists j', jstep combined mode j j'.
+  jreach combined false mode order j -> js_status j < IMB_STATUS_COMPLETED -> exists j', jstep combined false mode j j'.
 Proof.
   intros combined mode order j H Hlt. apply jreach_in_trace in H.
   unfold trace_states in H.
@@ -234,6 +234,17 @@ Proof.
     try (exfalso; revert Hlt; apply N.lt_irrefl);
     try (eexists; eapply js_release; reflexivity);
     try (eexists; eapply js_flush_pickup; reflexivity).
+Qed.
+
+(* What a flush entry that hands back jobs it does not hold does to the property: the job of a
+   cipher-first suite that waits in the hash manager is submitted to the hash a second time. *)
+Theorem reentry_runs_a_stage_twice :
+  exists j, jreach false true IMB_CIPHER_CUSTOM IMB_ORDER_CIPHER_HASH j /\ js_log j = [Cipher; Hash; Hash].
+Proof.
+  exists (mk_js 1 (Some Hash) [Cipher; Hash; Hash]). split; [| reflexivity].
+  eapply jr_step. eapply jr_step. apply jr_init.
+  - apply (js_release false true IMB_CIPHER_CUSTOM (mk_js 0 (Some Cipher) [Cipher]) Cipher). reflexivity.
+  - apply (js_flush_reentry false true IMB_CIPHER_CUSTOM (mk_js 1 (Some Hash) [Cipher; Hash]) Hash Hash); reflexivity.
 Qed.
 
 (* ================================================================================== *)
@@ -331,39 +342,64 @@ Definition cipher_alg_ok_everywhere (a : N * N * N) : bool :=
 
 Definition good_cipher_algs : list (N * N * N) := filter cipher_alg_ok_everywhere all_cipher_algs.
 
-Definition cell_facts (good : list (N * N * N)) (c : cell) : bool :=
+Definition hash_ok_everywhere (h : N) : bool := forallb (fun vt => hash_side_ok vt h) all_variant_tables.
+Definition good_hashes : list N := filter hash_ok_everywhere all_hashes.
+
+Definition cell_facts (good : list (N * N * N)) (goodh : list N) (c : cell) : bool :=
   implb (accepted c && negb (excepted c))
-        (pairing_ok (c_mode c) (c_hash c) && existsb (alg_eqb (c_mode c, c_klen c, c_dir c)) good).
+        (pairing_ok (c_mode c) (c_hash c) && existsb (alg_eqb (c_mode c, c_klen c, c_dir c)) good &&
+         existsb (N.eqb (c_hash c)) goodh).
 
-(* ONE pass over the 21952 cells: acceptance by the generated validation, pairing, cipher side of every variant *)
-Lemma all_cells_checked : (let good := good_cipher_algs in forallb (cell_facts good) all_cells) = true.
-Proof. vm_cast_no_check (eq_refl true). Time Qed.
-
-(* entry k of the hash tables is the wrapper of enumerator value k -- on every variant, for all 49 algorithms *)
-Lemma all_hashes_checked :
-  forallb (fun vt => forallb (fun h => hash_side_ok vt h) all_hashes) all_variant_tables = true.
-Proof. vm_cast_no_check (eq_refl true). Time Qed.
+(* ONE pass over the 21952 cells: acceptance by the generated validation, pairing, cipher and hash side of every variant *)
+Lemma all_cells_checked :
+  (let good := good_cipher_algs in let goodh := good_hashes in forallb (cell_facts good goodh) all_cells) = true.
+Proof. vm_cast_no_check (eq_refl true). Qed.
 
 Lemma cell_checked : forall c, In c all_cells -> accepted c = true -> excepted c = false ->
   pairing_ok (c_mode c) (c_hash c) = true /\
-  forall vt, In vt all_variant_tables -> cipher_side_ok vt (c_mode c) (c_klen c) (c_dir c) = true.
+  forall vt, In vt all_variant_tables ->
+    cipher_side_ok vt (c_mode c) (c_klen c) (c_dir c) = true /\ hash_side_ok vt (c_hash c) = true.
 Proof.
   intros c Hin Ha He. pose proof all_cells_checked as H. cbv zeta in H.
   rewrite forallb_forall in H. specialize (H c Hin). unfold cell_facts in H.
-  rewrite Ha, He in H. cbn [implb andb negb] in H. apply andb_true_iff in H. destruct H as [Hp Hg]. split; [assumption |].
+  rewrite Ha, He in H. cbn [implb andb negb] in H. apply andb_true_iff in H. destruct H as [H Hh].
+  apply andb_true_iff in H. destruct H as [Hp Hg]. split; [assumption |].
   apply existsb_exists in Hg. destruct Hg as (a & Hga & Heq). apply alg_eqb_eq in Heq. subst a.
-  unfold good_cipher_algs in Hga. apply filter_In in Hga. destruct Hga as [_ Hok].
-  unfold cipher_alg_ok_everywhere in Hok. rewrite forallb_forall in Hok. assumption.
+  unfold good_cipher_algs in Hga. apply (proj1 (filter_In cipher_alg_ok_everywhere _ all_cipher_algs)) in Hga. destruct Hga as [_ Hok].
+  unfold cipher_alg_ok_everywhere in Hok. rewrite forallb_forall in Hok.
+  apply existsb_exists in Hh. destruct Hh as (h & Hgh & Heq). apply N.eqb_eq in Heq. subst h.
+  unfold good_hashes in Hgh. apply (proj1 (filter_In hash_ok_everywhere _ all_hashes)) in Hgh. destruct Hgh as [_ Hokh].
+  unfold hash_ok_everywhere in Hokh. rewrite forallb_forall in Hokh.
+  intros vt Hvt. split; [apply Hok | apply Hokh]; assumption.
 Qed.
 
 Theorem accepted_cell_dispatch_all : forall vt c,
   In vt all_variant_tables -> In c all_cells -> accepted c = true -> excepted c = false ->
   cipher_side_ok vt (c_mode c) (c_klen c) (c_dir c) = true /\ hash_side_ok vt (c_hash c) = true.
 Proof.
-  intros vt c Hvt Hc Ha He. split.
-  - destruct (cell_checked c Hc Ha He) as [_ H]. apply H. assumption.
-  - pose proof all_hashes_checked as H. rewrite forallb_forall in H. specialize (H vt Hvt).
-    rewrite forallb_forall in H. apply H. apply all_cells_inv in Hc. tauto.
+  intros vt c Hvt Hc Ha He. destruct (cell_checked c Hc Ha He) as [_ H]. apply H. assumption.
+Qed.
+
+(* the flush entries an accepted cell reaches never hand back a job they do not hold: the stage machine of
+   these cells runs with [reenter] = false, the case [stages_once_in_order_all] is about *)
+Theorem accepted_cell_no_flush_reentry : forall vt c,
+  In vt all_variant_tables -> In c all_cells -> accepted c = true -> excepted c = false ->
+  exists wfc wfh,
+    tab_get (vt_flush_cipher vt) (calc_cipher_tab_index (c_mode c) (c_klen c) (c_dir c)) = Some wfc /\
+    tab_get (vt_flush_hash vt) (c_hash c) = Some wfh /\
+    flush_reenters wfc = false /\ flush_reenters wfh = false.
+Proof.
+  intros vt c Hvt Hc Ha He. destruct (accepted_cell_dispatch_all vt c Hvt Hc Ha He) as [H1 H2].
+  unfold cipher_side_ok in H1. unfold hash_side_ok, hash_side_ok_gen in H2.
+  destruct (find_variant_family vt); [| discriminate].
+  destruct (cipher_names _ _ _); [| discriminate]. destruct (hash_names _); [| discriminate].
+  destruct (tab_get (vt_submit_cipher vt) _); [| discriminate].
+  destruct (tab_get (vt_flush_cipher vt) _) as [wfc |]; [| discriminate].
+  destruct (tab_get (vt_submit_hash vt) _); [| discriminate].
+  destruct (tab_get (vt_flush_hash vt) _) as [wfh |]; [| discriminate].
+  exists wfc, wfh. split; [reflexivity |]. split; [reflexivity |].
+  apply andb_true_iff in H1. destruct H1 as [_ H1]. apply andb_true_iff in H2. destruct H2 as [_ H2].
+  cbn [negb orb] in H2. split; apply negb_true_iff; assumption.
 Qed.
 
 Theorem aead_pairs_all : forall c,
@@ -400,7 +436,7 @@ Qed.
 
 Lemma entry_ok_calls_named : forall f n w, entry_ok f n w = true ->
   forall callee, In callee (w_calls w) ->
-  exists p, In p (names_pats n ++ n_aux n) /\ pat_matches all_suffixes p callee = true.
+  exists p, In p (names_pats n ++ n_aux n ++ neutral_helpers) /\ pat_matches all_suffixes p callee = true.
 Proof.
   intros f n w H c Hc. unfold entry_ok in H.
   apply andb_true_iff in H. destruct H as [H _]. apply andb_true_iff in H. destruct H as [H _].
@@ -418,7 +454,7 @@ Theorem accepted_cell_calls_named : forall vt c,
     (forall g, In g (n_groups n) -> exists callee, In callee (w_calls ws) /\ names_alg callee (c_mode c, c_klen c, c_dir c) = true) /\
     (forall callee, In callee (w_calls ws) ->
        names_alg callee (c_mode c, c_klen c, c_dir c) = true \/
-       exists p, In p (n_aux n) /\ pat_matches all_suffixes p callee = true).
+       exists p, In p (n_aux n ++ neutral_helpers) /\ pat_matches all_suffixes p callee = true).
 Proof.
   intros vt c Hvt Hc Ha He.
   destruct (accepted_cell_dispatch_all vt c Hvt Hc Ha He) as [H _].
@@ -427,7 +463,7 @@ Proof.
   destruct (cipher_names (c_mode c) (c_klen c) (c_dir c =? IMB_DIR_ENCRYPT)) as [n |] eqn:En; [| discriminate].
   destruct (tab_get (vt_submit_cipher vt) _) as [ws |]; [| discriminate].
   destruct (tab_get (vt_flush_cipher vt) _) as [wf |]; [| discriminate].
-  apply andb_true_iff in H. destruct H as [H _].
+  apply andb_true_iff in H. destruct H as [H _]. apply andb_true_iff in H. destruct H as [H _].
   exists ws, n. split; [reflexivity |]. split; [reflexivity |]. split.
   - intros g Hg. destruct (entry_ok_groups_named f n ws H g Hg) as (callee & p & Hcal & Hp & Hm).
     exists callee. split; [assumption |]. unfold names_alg. rewrite En.
@@ -448,7 +484,7 @@ Definition slot_belongs (vt : variant_tables) (m kc d : N) : bool :=
       (match w_calls ws, w_mgrs ws, w_calls wf with [], [], [] => true | _, _, _ => false end) ||
       (* ... or an entry of THIS mode and direction for one of its key sizes *)
       existsb (fun k => match cipher_names m k (d =? IMB_DIR_ENCRYPT) with
-                        | Some n => entry_ok f n ws && flush_entry_ok f n ws wf
+                        | Some n => entry_ok f n ws && flush_entry_ok false f n ws wf
                         | None => false end) all_klens
   | _, _, _ => false
   end.
@@ -469,8 +505,8 @@ Theorem enum_table_order_match_all :
   forallb (fun vt =>
     table_shape_ok vt &&
     forallb (fun m => forallb (fun kc => forallb (fun d => slot_belongs vt m kc d) all_dirs) [0; 1; 2; 3]) all_modes &&
-    forallb (fun h => hash_side_ok vt h) all_hashes) all_variant_tables = true.
-Proof. vm_cast_no_check (eq_refl true). Time Qed.
+    forallb (fun h => hash_side_ok_gen false vt h) all_hashes) all_variant_tables = true.
+Proof. vm_cast_no_check (eq_refl true). Qed.
 
 (* accepted cells hit a non-NULL entry inside the tables *)
 Theorem index_in_bounds_all : forall vt c,
@@ -493,7 +529,7 @@ Proof.
   pose proof (all_cells_inv c Hc) as (Hm & _ & _ & Hh & _).
   split; [rewrite HS; apply index_in_bounds_arith; apply all_modes_lt_gap; assumption |].
   split; [rewrite H3; apply N_range_In in Hh; [tauto | discriminate] |].
-  unfold cipher_side_ok in H1. unfold hash_side_ok in H2.
+  unfold cipher_side_ok in H1. unfold hash_side_ok, hash_side_ok_gen in H2.
   destruct (find_variant_family vt); [| discriminate].
   destruct (cipher_names _ _ _); [| discriminate]. destruct (hash_names _); [| discriminate].
   destruct (tab_get (vt_submit_cipher vt) _); [| discriminate].
@@ -512,7 +548,7 @@ Lemma names_exact_checked :
      (let l := algs_named_by sym in forallb (fun a => forallb (fun b => share_ok a b) l) l) &&
      (let l := hashes_named_by sym in forallb (fun a => forallb (fun b => hash_share_ok a b) l) l))
     all_called_symbols = true.
-Proof. vm_cast_no_check (eq_refl true). Time Qed.
+Proof. vm_cast_no_check (eq_refl true). Qed.
 
 Theorem names_alg_exact : forall sym a b,
   In sym all_called_symbols -> In a all_cipher_algs -> In b all_cipher_algs ->
@@ -521,8 +557,8 @@ Proof.
   intros sym a b Hs Ha Hb Na Nb. pose proof names_exact_checked as H.
   rewrite forallb_forall in H. specialize (H sym Hs). apply andb_true_iff in H. destruct H as [H _].
   cbv zeta in H. rewrite forallb_forall in H.
-  assert (Ia : In a (algs_named_by sym)) by (apply filter_In; auto).
-  assert (Ib : In b (algs_named_by sym)) by (apply filter_In; auto).
+  assert (Ia : In a (algs_named_by sym)) by (apply filter_In; split; assumption).
+  assert (Ib : In b (algs_named_by sym)) by (apply filter_In; split; assumption).
   specialize (H a Ia). rewrite forallb_forall in H. apply H. assumption.
 Qed.
 
@@ -533,8 +569,8 @@ Proof.
   intros sym a b Hs Ha Hb Na Nb. pose proof names_exact_checked as H.
   rewrite forallb_forall in H. specialize (H sym Hs). apply andb_true_iff in H. destruct H as [_ H].
   cbv zeta in H. rewrite forallb_forall in H.
-  assert (Ia : In a (hashes_named_by sym)) by (apply filter_In; auto).
-  assert (Ib : In b (hashes_named_by sym)) by (apply filter_In; auto).
+  assert (Ia : In a (hashes_named_by sym)) by (apply filter_In; split; assumption).
+  assert (Ib : In b (hashes_named_by sym)) by (apply filter_In; split; assumption).
   specialize (H a Ia). rewrite forallb_forall in H. apply H. assumption.
 Qed.
 
@@ -543,4 +579,4 @@ Qed.
 Lemma combined_cipher_pairs :
   forallb (fun m => Bool.eqb (combined_cipher m)
                              (existsb (fun '(m', _) => (m =? m') && negb (m =? IMB_CIPHER_CCM)) aead_pairs)) all_modes = true.
-Proof. vm_cast_no_check (eq_refl true). Time Qed.
+Proof. vm_cast_no_check (eq_refl true). Qed.
